@@ -2,6 +2,7 @@ package main
 
 import (
 	"fmt"
+	"regexp"
 	"go/token"
 	"go/types"
 	"sort"
@@ -256,6 +257,69 @@ func (s *Session) tag(t types.Type) string {
 	return num(int64(n))
 }
 
+var identRe = regexp.MustCompile(`\|[^|]*\||[A-Za-z_][A-Za-z_0-9.!]*`)
+
+func symbolsOf(t string) []string { return identRe.FindAllString(t, -1) }
+
+// relevantFacts keeps the facts connected to the goal through shared declared constants (dropping facts only weakens the hypotheses).
+func (s *Session) relevantFacts(o *Obligation) []string {
+	facts := s.facts[:o.NFacts]
+	if o.Cover {
+		return facts
+	}
+	declared := s.declSet
+	rel := map[string]bool{}
+	for _, sym := range symbolsOf(o.Guard + " " + o.Goal) {
+		if declared[sym] {
+			rel[sym] = true
+		}
+	}
+	type finfo struct {
+		syms []string
+		in   bool
+	}
+	infos := make([]finfo, len(facts))
+	for i, f := range facts {
+		seen := map[string]bool{}
+		for _, sym := range symbolsOf(f) {
+			if declared[sym] && !seen[sym] && sym != "alloc0" {
+				seen[sym] = true
+				infos[i].syms = append(infos[i].syms, sym)
+			}
+		}
+	}
+	changed := true
+	for changed {
+		changed = false
+		for i := range infos {
+			if infos[i].in {
+				continue
+			}
+			hit := len(infos[i].syms) == 0
+			for _, sym := range infos[i].syms {
+				if rel[sym] {
+					hit = true
+					break
+				}
+			}
+			if hit {
+				infos[i].in = true
+				changed = true
+				for _, sym := range infos[i].syms {
+					rel[sym] = true
+				}
+			}
+		}
+	}
+	var out []string
+	for i, f := range facts {
+		if infos[i].in {
+			out = append(out, f)
+		}
+	}
+	return out
+}
+
 // query renders the SMT-LIB text of one obligation.
 func (s *Session) query(o *Obligation, specDefs string) string {
 	var sb strings.Builder
@@ -272,7 +336,8 @@ func (s *Session) query(o *Obligation, specDefs string) string {
 	for _, d := range s.decls {
 		body.WriteString(d + "\n")
 	}
-	for _, f := range s.facts[:o.NFacts] {
+	facts := s.relevantFacts(o)
+	for _, f := range facts {
 		if o.NoQuant && strings.Contains(f, "(forall ") {
 			continue
 		}
@@ -284,7 +349,7 @@ func (s *Session) query(o *Obligation, specDefs string) string {
 	for _, d := range s.decls {
 		sb.WriteString(d + "\n")
 	}
-	for _, f := range s.facts[:o.NFacts] {
+	for _, f := range facts {
 		if o.NoQuant && strings.Contains(f, "(forall ") {
 			continue
 		}
